@@ -94,7 +94,9 @@ pub fn run(ctx: &Ctx) -> i32 {
             let mut rng = Rng::derive(ctx.seed, 14_000 + shard as u64, k as u64);
             let (prof, inject) = match rng.below(5) {
                 0 => (Profile::conforming(), None),
-                1 | 2 => (Profile::conforming(), Some(ALL_INJECT[rng.below(ALL_INJECT.len())])),
+                // (the classes whose diagnostics name registers get more weight: that is what a
+                // permutation can disturb)
+                1 | 2 => (Profile::conforming(), Some(if rng.chance(0.45) { *rng.pick(&[gen::Inject::TempAfterCall, gen::Inject::TempAfterCall, gen::Inject::ReadUnassigned, gen::Inject::SavedNoRestore, gen::Inject::SavedUnsavedWrite]) } else { ALL_INJECT[rng.below(ALL_INJECT.len())] })),
                 _ => (Profile::wild_surface(), None),
             };
             let mut g = gen::generate(&mut rng, &prof, inject);
